@@ -338,7 +338,9 @@ class AddrGroup(Base, Group):
         :param items: List of AddressAg objects (default self.items).
         :return: Last sequence number.
         """
-        items: LAddressAg = kwargs.get("items") or self._items
+        items: LAddressAg = kwargs.get("items")
+        if items is None:
+            items = self._items
         sequence: int = int(start)
         count = len(items)
 
